@@ -410,6 +410,9 @@ def main(ctx):
 
     iunits = [(num, nch) for num in range(0, NUM + 1) for nch in range(1, NCH + 1)]
     iunits += [(num, nch) for num in (0, 1, 5) for nch in (0, -1, -7)]
+    # row counts / byte offsets beyond the 32-bit range (files over 2 GiB) and next to the powers of two
+    iunits += [(num, nch) for num in (2 ** 31 - 1, 2 ** 31, 2 ** 31 + 5, 2 ** 32 + 1, 3 * 10 ** 9, 2 ** 40 + 7, 2 ** 53 + 1, 2 ** 62 + 3, 2 ** 63 - 1)
+               for nch in (1, 2, 3, 7, 60, 1000)]
     ctx.lattice("isplit", iunits, one_isplit, bounds=dict(num_max=NUM, nchunks_max=NCH))
 
     # ---------------------------------------------------------- E1 splitarray
@@ -460,6 +463,11 @@ def main(ctx):
         old = P.time
         P.time = clk
         f = io.StringIO()
+        if desc.startswith("ascii:"):
+            # a log file opened with encoding='ascii' (and a long description): whatever the bar writes must be
+            # encodable there, as everything the unchanged bar writes is
+            desc = desc[6:]
+            f = io.TextIOWrapper(io.BytesIO(), encoding="ascii", write_through=True)
         kw = dict(desc=desc, total=total, leave=leave, file=f, mininterval=mininterval, miniters=miniters,
                   n_bars=n_bars, simple=simple)
         case = (unit, tuple(prefix))
@@ -509,7 +517,7 @@ def main(ctx):
         if got != items:
             rec.fail(case, "yielded %r, iterable holds %r" % (got, items))
             return clk.points
-        out = f.getvalue()
+        out = f.getvalue() if isinstance(f, io.StringIO) else f.buffer.getvalue().decode("ascii")
         if (leave or simple) and not out.endswith("\n"):
             rec.fail(case, "output does not end the line: %r" % out[-30:])
             return clk.points
@@ -522,7 +530,9 @@ def main(ctx):
             if entry == "PBar" and ikind not in ("list", "gen"):
                 continue
             for n in ns:
-                for desc in ("", "d"):
+                for desc in ("", "d", "ascii:" + "a long description of what is being done " * 2, "ascii:d"):
+                    if desc.startswith("ascii:") and not (n == ns[-1] or n == 0):
+                        continue
                     for totsel in ("none", "exact", "small", "large"):
                         if totsel == "exact" and n == 0 and False:
                             continue
